@@ -503,6 +503,9 @@ func shapeSources() []string {
 		"(B ? U8 : I) == 1", "(B2 ? U8 : I) == I", "(B ? I8 : I) == I", "(B ? 1 : 2.5) == 1", "(B2 ? I : U16) + 1", "(B ? F32 : I) * 2", "B ? 1 : 2.5", "B2 ? U8 : I",
 		"+(I % 2)", "I - +(I % (I - I))", "+AI[9]", "-AI[9]", "+(I / (I - I))", "[1, +AI[I]][1]", "map(AI, {+(# % (# - #))})",
 		"F64 in [1, 2, 3]", "F32 in [1, 2]", "2.5 in [1, 2, 3]", "1.5 in AI", "F64 in AI", "F64 in 1..3", "U8 in [200, 404, 500]", "U16 in [80, 443, 70000]", "I8 in [100, 300]", "I16 in [44, 65580]",
+		// map literals that name one key twice (as an identifier, a string, a computed key that meets a spelled one for some environments)
+		"{a: I, a: S}.a", "{a: 1, a: 2}", "{\"k\": 1, \"k\": 2, \"k\": 3}.k", "{(S2): 1, b: 2}.b", "{b: 1, (S2): 2}.b", "len({a: I, b: S, a: F64})", "{a: Inc(1), a: Inc(2)}.a",
+		"{(S): 1, abc: 2, (S + \"\"): 3}", "map(AS, {{a: #, a: S}.a})", "{a: {b: 1, b: 2}, a: {b: 3}}.a.b",
 		"Sum(1, 2) + Sum(1)", "Sum(1) + Sum(10, 20)", "Sum(1, 2, 3) + Sum()", "[Fast(1, 2), Fast(3)]", "Fast(1) + Fast(1, 2, 3)", "St.Get() + P.Get()", "Add(1, 2) + Add(3, 4) + Inc(5)",
 	}
 	// string literals that SPELL a punctuation token or an operator: a literal is a literal wherever the parser asks for a token by value
